@@ -57,6 +57,55 @@ def fmt_is_lossless(fmt):
     return all(c not in CODE_LETTERS + "\\*@" for k, c in toks if k == "lit")
 
 
+WIDTH = {"2D": 2, "2M": 2, "4Y": 4, "2h": 2, "2m": 2, "2s": 2, "3z": 3}
+FIELD = {"4Y": 0, "2M": 1, "2D": 2, "2h": 3, "2m": 4, "2s": 5, "3z": 6}
+
+
+def py_print(fmt, t):
+    """what the property calls the written timestamp: the text of stamp t under a lossless format (independent of ObsTime.__str__)"""
+    return "".join(("%0*d" % (WIDTH[c], t[FIELD[c]])) if k == "code" else c for k, c in fmt_tokens(fmt))
+
+
+def py_parse(fmt, s):
+    """the stamp whose text under the lossless format `fmt` is s ([Y, M, D, h, m, s, ms], fields the format omits as in
+    ObsTime()), or None when s is not the text of a stamp under fmt"""
+    t, i = [1970, 1, 1, 0, 0, 0, 0], 0
+    for k, c in fmt_tokens(fmt):
+        if k == "code":
+            w = s[i:i + WIDTH[c]]
+            if len(w) != WIDTH[c] or not w.isdigit() or not w.isascii():
+                return None
+            t[FIELD[c]] = int(w); i += WIDTH[c]
+        else:
+            if s[i:i + 1] != c:
+                return None
+            i += 1
+    return t if i == len(s) else None
+
+
+def valid_stamp(t):
+    return 1970 <= t[0] <= 9999 and 1 <= t[1] <= 12 and 1 <= t[2] <= mdays(t[0], t[1]) and t[3] < 24 and t[4] < 60 and t[5] < 60 and t[6] < 1000
+
+
+def twin_fmt(fmt, rng):
+    """a format with the same literals and the same widths in which the two-character codes are permuted (2D/2M/4Y vs
+    2M/2D/4Y, 2h:2m:2s vs 2s:2m:2h, ...): every text written under one is, as a string, a candidate text under the other"""
+    toks = fmt_tokens(fmt)
+    two = [c for k, c in toks if k == "code" and WIDTH[c] == 2]
+    perm = list(two)
+    for _ in range(10):
+        mode = rng.choice(["DM", "DM", "hms", "all"])
+        grp = [c for c in two if (c[1] in "DM" if mode == "DM" else c[1] in "hms" if mode == "hms" else True)]
+        sh = list(grp)
+        rng.shuffle(sh)
+        m = dict(zip(grp, sh))
+        perm = [m.get(c, c) for c in two]
+        if perm != two:
+            break
+    it = iter(perm)
+    return "".join((next(it) if WIDTH[c] == 2 else c) if k == "code" else c for k, c in toks)
+
+
 def dec_float(tok):
     """'m/d' (mantissa, decimals) -> the float Python's float() gives for that decimal literal"""
     m, d = tok.split("/")
@@ -295,6 +344,8 @@ class P(Prop):
             return {"kind": "wkt", "srid": srid, "q": q, "pts": pts}
         if kind == "tz":
             return {"kind": "tz", "t": self.rand_stamp(rng)}
+        if kind == "time":
+            return {"kind": "time", "pfmt": fmt, "rfmt": fmt, "t": self.rand_stamp(rng), "via": rng.choice(["readTimestamp", "ctor"])}
         if kind == "kml":
             srid = rng.choice(["ENU", "GEO"])
             rows, q = self.rand_rows(rng, srid, n=2)
@@ -302,6 +353,111 @@ class P(Prop):
         raise ValueError(kind)
 
     SESSION_OPS = ["csv", "gpx", "gpxdir", "net", "wkt", "tz", "kml"]
+
+    @staticmethod
+    def norm(case):
+        """a session with the formats in force written on every operation: `setfmt` operations (the user calling
+        ObsTime.setReadFormat / setPrintFormat between two files) and `mid_print` (the print format changed between the write
+        and the read of one file) move them; `cur` = [read, print] expected after the operation. Idempotent; applied
+        wherever a session case is looked at, so that shrinking a session cannot leave stale annotations."""
+        if case.get("kind") != "session":
+            return case
+        rd = pr = case["fmt"]
+        ops = []
+        for op in case["ops"]:
+            op = dict(op)
+            k = op["kind"]
+            if k == "setfmt":
+                rd = op.get("read") or rd
+                pr = op.get("print") or pr
+            elif k in ("csv", "time"):
+                op["pfmt"], op["rfmt"] = pr, rd
+                if k == "csv" and op.get("mid_print"):
+                    pr = op["mid_print"]
+            elif k == "reread":
+                op["pfmt"] = pr
+                rd = op["fmts"][-1]
+            op["cur"] = [rd, pr]
+            ops.append(op)
+        return dict(case, ops=ops)
+
+    def same_text_rows(self, rng, f1, f2, n):
+        """n pairs of stamps (t1, t2), both valid dates, such that t1 printed under f1 and t2 printed under f2 are the SAME
+        text (03/04/2021 is 3 April under 2D/2M/4Y and 4 March under 2M/2D/4Y); None when none was found"""
+        out = []
+        for _ in range(60 * n):
+            t1 = self.rand_stamp(rng)
+            if rng.random() < 0.7:      # small fields are valid in every position
+                t1 = [t1[0], rng.randrange(1, 13), rng.randrange(1, 13), rng.randrange(0, 24), rng.randrange(0, 24), rng.randrange(0, 24), t1[6]]
+            t2 = py_parse(f2, py_print(f1, t1))
+            if t2 is not None and valid_stamp(t2) and t2 != py_parse(f1, py_print(f1, t1)):
+                out.append((t1, t2))
+                if len(out) == n:
+                    return out
+        return None
+
+    def twin_session(self, rng, fmt):
+        """two files in one process, each written and read with its own matching format, the second format a twin of the
+        first and the second file holding the very texts of the first (or: the texts first met by readTimestamp / ObsTime(str))"""
+        f2 = twin_fmt(fmt, rng)
+        n = rng.choice([1, 2, 3])
+        pairs = self.same_text_rows(rng, fmt, f2, n)
+        if f2 == fmt or pairs is None:
+            return None
+        L = [l for l in self.layouts() if l["T"] != -1]
+        srid = rng.choice(SRIDS)
+        c1 = self.csv_case(rng, rng.choice(L), rng.choice([",", ";", "|", "\t"]), rng.choice([0, 1]), srid, pfmt=fmt, n=n)
+        c2 = self.csv_case(rng, rng.choice(L), rng.choice([",", ";", "|", "\t"]), rng.choice([0, 1]), srid, pfmt=f2, n=n)
+        for r1, r2, (t1, t2) in zip(c1["rows"], c2["rows"], pairs):
+            r1[3:10] = t1
+            r2[3:10] = t2
+        first = rng.choice(["csv", "csv", "time", "reread"])
+        if first == "csv":
+            ops = [c1]
+        elif first == "time":
+            ops = [{"kind": "time", "pfmt": fmt, "rfmt": fmt, "t": t1, "via": rng.choice(["readTimestamp", "ctor"])} for t1, _ in pairs]
+        else:
+            ops = [{"kind": "reread", "t": t1, "fmts": [fmt], "via": "readTimestamp"} for t1, _ in pairs]
+        if rng.random() < 0.3:
+            ops.append(self.session_op(rng, rng.choice(self.SESSION_OPS), fmt))
+        ops += [{"kind": "setfmt", "read": f2, "print": f2}, c2]
+        if rng.random() < 0.3:      # and back again
+            ops += [{"kind": "setfmt", "read": fmt, "print": fmt}, dict(c1, sep=rng.choice([",", ";"]))]
+        return self.norm({"kind": "session", "fmt": fmt, "ops": ops})
+
+    def reread_case(self, rng):
+        """one timestamp text read under a sequence of read formats (the first one is the format it was printed with)"""
+        f1 = rng.choice(CSV_FMTS)
+        fm = [f1]
+        for _ in range(rng.choice([1, 2, 3])):
+            fm.append(rng.choice([twin_fmt(f1, rng), twin_fmt(f1, rng), f1, rng.choice(CSV_FMTS)]))
+        t = self.rand_stamp(rng)
+        if rng.random() < 0.7:
+            t = [t[0], rng.randrange(1, 13), rng.randrange(1, 13), rng.randrange(0, 24), rng.randrange(0, 24), rng.randrange(0, 24), t[6]]
+        return {"kind": "reread", "pfmt": f1, "t": t, "fmts": fm, "via": rng.choice(["readTimestamp", "ctor"])}
+
+    def mixed_session(self, rng):
+        """a session in which the user changes the read / print formats between (and inside) the operations"""
+        fmt = rng.choice(CSV_FMTS)
+        pool = CSV_FMTS + [twin_fmt(fmt, rng), twin_fmt(fmt, rng)]
+        ops = []
+        for _ in range(rng.choice([2, 3, 4, 5])):
+            r = rng.random()
+            if r < 0.3:
+                f = rng.choice(pool)
+                ops.append(rng.choice([{"kind": "setfmt", "read": f, "print": f}, {"kind": "setfmt", "read": f, "print": f},
+                                       {"kind": "setfmt", "read": f}, {"kind": "setfmt", "print": f}]))
+            else:
+                op = self.session_op(rng, rng.choice(self.SESSION_OPS + ["csv", "csv", "time"]), fmt)
+                if op["kind"] == "csv":
+                    if rng.random() < 0.25:
+                        op["mid_print"] = rng.choice(pool)      # the print format is changed between the write and the read
+                    if rng.random() < 0.3:
+                        op["nread"] = rng.choice([2, 3])        # the file is read by several readers
+                ops.append(op)
+        if ops[-1]["kind"] == "setfmt":
+            ops.append(self.session_op(rng, "csv", fmt))
+        return self.norm({"kind": "session", "fmt": fmt, "ops": ops})
 
     def session_cases(self, rng, tier):
         out = []
@@ -319,7 +475,17 @@ class P(Prop):
             n = rng.choice([2, 3, 4])
             ops = [self.session_op(rng, rng.choice(self.SESSION_OPS + ["csv", "gpxdir"]), fmt) for _ in range(n)]
             out.append({"kind": "session", "fmt": fmt, "ops": ops})
-        return out
+        # the formats change during the session: twin formats reading the same texts, formats set between / inside operations
+        for fmt in CSV_FMTS:
+            for _ in range(40 if tier != "thorough" else 400):
+                c = self.twin_session(rng, fmt)
+                if c is not None:
+                    out.append(c)
+        for _ in range(600 if tier != "thorough" else 6000):
+            out.append(self.mixed_session(rng))
+        for _ in range(300 if tier != "thorough" else 3000):
+            out.append(self.reread_case(rng))
+        return [self.norm(c) for c in out]
 
     def cases(self, rng, tier):
         out = self.session_cases(rng, tier)
@@ -435,6 +601,7 @@ class P(Prop):
         if k == "session":
             t["ops"] = "-".join(o["kind"] for o in case["ops"])
             t["fmt"] = case["fmt"]
+            t["formats_change"] = any(o["kind"] == "setfmt" or o.get("mid_print") for o in case["ops"])
         return t
 
     @staticmethod
@@ -453,8 +620,10 @@ class P(Prop):
             return any(any(r[:3]) or r[3:] != [1970, 1, 1, 0, 0, 0, 0] for r in case["rows"])
         if k == "fix":
             return any(case["ns"])
-        if k == "time":
+        if k in ("time", "reread"):
             return case["t"] != [1970, 1, 1, 0, 0, 0, 0]
+        if k == "setfmt":
+            return False
         if k == "net":
             return any(any(any(p) for p in e["geom"]) for e in case["edges"])
         if k == "wkt":
@@ -504,6 +673,39 @@ class P(Prop):
                         self.leaks.append([name, what, b, c])
 
     def impl(self, case):
+        """Every case that calls tracklib runs in a forked child of this process, which itself never executes library code
+        after the imports of setup(): whatever a call leaves behind in the process (class-level formats, memo tables, counters)
+        is seen by the later calls of the SAME case - that is what sessions are for - and never by another case. A failing
+        case therefore fails again when replayed alone in a fresh process."""
+        if case["kind"] == "fix" or os.environ.get("C13_NOFORK"):
+            return self.impl_here(case)
+        import pickle
+        r, w = os.pipe()
+        pid = os.fork()
+        if pid == 0:
+            code = 0
+            try:
+                os.close(r)
+                try:
+                    out = self.impl_here(case)
+                except BaseException as e:
+                    from engine import err_kind
+                    out = {"err": err_kind(e), "detail": str(e)[:200]}
+                with os.fdopen(w, "wb") as fh:
+                    fh.write(pickle.dumps(out))
+            except BaseException:
+                code = 1
+            finally:
+                os._exit(code)
+        os.close(w)
+        with os.fdopen(r, "rb") as fh:
+            data = fh.read()
+        os.waitpid(pid, 0)
+        if not data:
+            return {"err": "err:child", "detail": "the child process running the case died"}
+        return pickle.loads(data)
+
+    def impl_here(self, case):
         T = self.ObsTime
         save = (T.getReadFormat(), T.getPrintFormat())
         try:
@@ -515,6 +717,7 @@ class P(Prop):
     def impl_session(self, case):
         """2-4 operations in one process sharing the global ObsTime formats, which are set ONCE, at the start"""
         T = self.ObsTime
+        case = self.norm(case)
         T.setPrintFormat(case["fmt"]); T.setReadFormat(case["fmt"])
         self.ambient = True
         outs = []
@@ -530,6 +733,36 @@ class P(Prop):
             o["fmt_after"] = [T.getReadFormat(), T.getPrintFormat()]
             outs.append(o)
         return {"ops": outs}
+
+    def impl_setfmt(self, case):
+        """the user sets the global formats (not a round trip: nothing to check but the formats afterwards)"""
+        T = self.ObsTime
+        if case.get("read"):
+            T.setReadFormat(case["read"])
+        if case.get("print"):
+            T.setPrintFormat(case["print"])
+        return {}
+
+    def read_stamp(self, s, via):
+        T = self.ObsTime
+        try:
+            b = self.lib("ObsTime.readTimestamp", T.readTimestamp, s) if via != "ctor" else self.lib("ObsTime(str)", T, s)
+            return [b.year, b.month, b.day, b.hour, b.min, b.sec, b.ms]
+        except Exception as e:
+            return self.ekind(e)
+
+    def impl_reread(self, case):
+        """str(t) under the print format, then the SAME text read under each read format of the list in turn"""
+        T = self.ObsTime
+        if not self.ambient:
+            T.setPrintFormat(case["pfmt"])
+        t = case["t"]
+        s = str(T(t[0], t[1], t[2], t[3], t[4], t[5], t[6]))
+        backs = []
+        for f in case["fmts"]:
+            T.setReadFormat(f)
+            backs.append(self.read_stamp(s, case.get("via")))
+        return {"text": s, "backs": backs}
 
     def impl_tz(self, case):
         t = case["t"]
@@ -594,15 +827,11 @@ class P(Prop):
 
     def impl_time(self, case):
         T = self.ObsTime
-        T.setPrintFormat(case["pfmt"]); T.setReadFormat(case["rfmt"])
+        if not self.ambient:
+            T.setPrintFormat(case["pfmt"]); T.setReadFormat(case["rfmt"])
         t = case["t"]
         s = str(T(t[0], t[1], t[2], t[3], t[4], t[5], t[6]))
-        try:
-            b = T.readTimestamp(s)
-            back = [b.year, b.month, b.day, b.hour, b.min, b.sec, b.ms]
-        except Exception as e:
-            back = self.ekind(e)
-        return {"text": s, "back": back}
+        return {"text": s, "back": self.read_stamp(s, case.get("via"))}
 
     def impl_csv(self, case):
         T = self.ObsTime
@@ -628,11 +857,19 @@ class P(Prop):
                 text = fh.read()
             if not self.ambient:
                 T.setReadFormat(case["rfmt"])
-            try:
-                back = self.lib("TrackReader.readFromCsv", self.TR.readFromCsv, path, ids["E"], ids["N"], ids["U"], ids["T"], case["sep"], h=case["hdrR"], srid=case["srid"])
-                return {"text": text, "read": self.obs_rows(back)}
-            except Exception as e:
-                return {"text": text, "read": self.ekind(e)}
+            if case.get("mid_print"):
+                T.setPrintFormat(case["mid_print"])      # the user changes the print format between the write and the read
+            reads = []
+            for _ in range(case.get("nread", 1)):        # the file written once is read by several readers
+                try:
+                    back = self.lib("TrackReader.readFromCsv", self.TR.readFromCsv, path, ids["E"], ids["N"], ids["U"], ids["T"], case["sep"], h=case["hdrR"], srid=case["srid"])
+                    reads.append(self.obs_rows(back))
+                except Exception as e:
+                    reads.append(self.ekind(e))
+            out = {"text": text, "read": reads[0]}
+            if len(reads) > 1:
+                out["rereads"] = reads[1:]
+            return out
         finally:
             if os.path.exists(path):
                 os.remove(path)
@@ -721,9 +958,11 @@ class P(Prop):
     def requests(self, case):
         k = case["kind"]
         if k == "session":
-            return [l for op in case["ops"] for l in self.requests(op)]
-        if k in ("tz", "kml"):
+            return [l for op in self.norm(case)["ops"] for l in self.requests(op)]
+        if k in ("tz", "kml", "setfmt"):
             return []
+        if k == "reread":
+            return ["C13.time %s %s %s" % (hx(case["pfmt"]), hx(f), " ".join(map(str, case["t"]))) for f in case["fmts"]]
         if k == "gpxdir":
             return ["C13.gpx 1 %s %s %s" % (hx(case["rfmt"]), hx(str(tr["tid"])), ";".join(self.row_tok(r, case["q"], 8) for r in tr["rows"]))
                     for tr in case["tracks"]]
@@ -776,13 +1015,16 @@ class P(Prop):
             raise ValueError("bad-request")
         if k == "session":
             outs, i = [], 0
-            for op in case["ops"]:
+            for op in self.norm(case)["ops"]:
                 n = len(self.requests(op))
                 outs.append(self.decode(op, replies[i:i + n]))
                 i += n
             return {"ops": outs}
-        if k in ("tz", "kml"):
+        if k in ("tz", "kml", "setfmt"):
             return {}
+        if k == "reread":
+            ds = [self.decode({"kind": "time"}, [r]) for r in replies]
+            return {"text": ds[0]["text"], "backs": [d["back"] for d in ds]}
         if k == "gpxdir":
             return {"files": [self.decode({"kind": "gpx"}, [r]) for r in replies]}
         if k == "fix":
@@ -825,13 +1067,18 @@ class P(Prop):
     def compare(self, case, impl_out, model_out):
         k = case["kind"]
         if k == "session" and "err" not in impl_out:
-            for i, (op, io, mo) in enumerate(zip(case["ops"], impl_out["ops"], model_out["ops"])):
+            for i, (op, io, mo) in enumerate(zip(self.norm(case)["ops"], impl_out["ops"], model_out["ops"])):
+                if "err" in io:
+                    return "operation %d (%s) raised %s: %s" % (i, op["kind"], io["err"], io.get("detail"))
                 m = self.compare(op, io, mo)
                 if m:
                     return "operation %d (%s): %s" % (i, op["kind"], m)
             return None
-        if k in ("tz", "kml") and "err" not in impl_out:
+        if k in ("tz", "kml", "setfmt") and "err" not in impl_out:
             return None
+        if k == "reread" and "err" not in impl_out:
+            mine = {"text": impl_out["text"], "backs": impl_out["backs"]}
+            return None if mine == model_out else "impl=%s model=%s" % (str(mine)[:300], str(model_out)[:300])
         if k == "gpxdir" and "err" not in impl_out:
             if len(impl_out["files"]) != len(model_out["files"]):
                 return "number of files"
@@ -842,6 +1089,8 @@ class P(Prop):
             return None
         if "err" in impl_out:
             return "implementation raised %s outside the write/read calls: %s" % (impl_out["err"], impl_out.get("detail"))
+        if k == "time":
+            impl_out = {"text": impl_out["text"], "back": impl_out["back"]}
         if k in ("fix", "time"):
             return None if impl_out == model_out else "impl=%s model=%s" % (str(impl_out)[:300], str(model_out)[:300])
         if "werr" in impl_out or "werr" in model_out:
@@ -854,6 +1103,9 @@ class P(Prop):
             return "GPX metadata block is not the expected one"
         if impl_out["read"] != model_out["read"]:
             return "read back: impl=%s model=%s" % (str(impl_out["read"])[:300], str(model_out["read"])[:300])
+        for j, rr in enumerate(impl_out.get("rereads", [])):
+            if rr != model_out["read"]:
+                return "read number %d of the same file: impl=%s model=%s" % (j + 2, str(rr)[:300], str(model_out["read"])[:300])
         return None
 
     # ------------------------------------------------------------------ oracle
@@ -913,6 +1165,7 @@ class P(Prop):
             # every round trip of the session must hold with the formats the session started with, and no library call may
             # leave the global read / print formats changed ("read back with the matching format" relies on it)
             leak = None
+            case = self.norm(case)
             for i, (op, o) in enumerate(zip(case["ops"], out["ops"])):
                 tag = "session %r, operation %d (%s)" % (case["fmt"], i, op["kind"])
                 if "err" in o:
@@ -924,12 +1177,25 @@ class P(Prop):
                     for name, what, b, c in o["leaks"]:
                         leak = " [operation %d (%s): %s left the global ObsTime %s format changed from %r to %r]" % (i, op["kind"], name, what, b, c)
                         break
-                    if leak is None and o["fmt_after"] != [case["fmt"], case["fmt"]]:
-                        leak = " [after operation %d (%s) the global ObsTime formats are %s, the session uses %r]" % (i, op["kind"], o["fmt_after"], case["fmt"])
+                    if leak is None and o["fmt_after"] != op["cur"]:
+                        leak = " [after operation %d (%s) the global ObsTime read / print formats are %s, the user set %s]" % (i, op["kind"], o["fmt_after"], op["cur"])
             if leak:
                 return "session %r:%s" % (case["fmt"], leak)
             return None
-        if k in ("tz", "kml"):
+        if k in ("tz", "kml", "setfmt"):
+            return None
+        if k == "reread":
+            # the text s is read under each format f in turn. Whenever s is the text the writer prints, under f, for a valid
+            # stamp t' (f lossless), the read under f is a read "with the matching format" of the written t': it must return t'
+            for f, back in zip(case["fmts"], out["backs"]):
+                if not fmt_is_lossless(f):
+                    continue
+                want = py_parse(f, out["text"])
+                if want is None or not valid_stamp(want) or py_print(f, want) != out["text"]:
+                    continue
+                if back != want:
+                    return "the text %r is what format %r prints for %s; read under %r (after reads under %s) it comes back as %s" % (
+                        out["text"], f, want, f, case["fmts"][:case["fmts"].index(f)], back)
             return None
         if k == "gpxdir":
             if out["nfiles"] != len(case["tracks"]):
@@ -964,8 +1230,13 @@ class P(Prop):
             if "werr" in out:
                 return "writeToFile raised %s" % out["werr"]
             ids = case["ids"]
-            return self.check_rows(case["rows"], out["read"], case["q"], case["srid"], "csv", ids["U"] != -1, ids["T"] != -1,
-                                   "CSV %s sep %r h=%d ids %s" % (case["srid"], case["sep"], case["h"], ids))
+            for j, rd in enumerate([out["read"]] + out.get("rereads", [])):
+                m = self.check_rows(case["rows"], rd, case["q"], case["srid"], "csv", ids["U"] != -1, ids["T"] != -1,
+                                    "CSV %s sep %r h=%d ids %s time format %r%s" % (case["srid"], case["sep"], case["h"], ids, case["pfmt"],
+                                                                                  " (read number %d of the file)" % (j + 1) if j else ""))
+                if m:
+                    return m
+            return None
         if k == "gpx":
             if not fmt_is_lossless(case["rfmt"].rstrip("Z")) or not case["rfmt"].startswith(ISO_FMT):
                 return None
@@ -1032,15 +1303,20 @@ class P(Prop):
             if len(ops) > 1:
                 # the last operation is kept: it is the round trip that shows the effect of what precedes it
                 for i in range(len(ops) - 1):
-                    yield dict(case, ops=ops[:i] + ops[i + 1:])
+                    yield self.norm(dict(case, ops=ops[:i] + ops[i + 1:]))
+                for i in range(1, len(ops)):
+                    yield self.norm(dict(case, ops=ops[:i]))
             def stamps(o):
                 return {tuple(r[3:10]) for r in o.get("rows", [])}
             for i, op in enumerate(ops):
                 for sm in self.shrink(op):
                     if i == len(ops) - 1 and not stamps(sm) <= stamps(op):
                         continue        # the timestamps of the final round trip are what a leaked format corrupts: keep them
-                    yield dict(case, ops=ops[:i] + [sm] + ops[i + 1:])
+                    yield self.norm(dict(case, ops=ops[:i] + [sm] + ops[i + 1:]))
             return
+        if k == "reread" and len(case["fmts"]) > 1:
+            for i in range(len(case["fmts"])):
+                yield dict(case, fmts=case["fmts"][:i] + case["fmts"][i + 1:])
         if k == "gpxdir":
             if len(case["tracks"]) > 1:
                 for i in range(len(case["tracks"])):
@@ -1057,6 +1333,10 @@ class P(Prop):
                 yield c
         if k == "csv" and case.get("af_names"):
             c = dict(case); c.pop("af_names"); c.pop("afs"); yield c
+        if k == "csv":
+            for key in ("nread", "mid_print"):
+                if key in case:
+                    c = dict(case); c.pop(key); yield c
         if k in ("csv", "gpx"):
             for i, r in enumerate(case["rows"]):
                 for a in range(3):
